@@ -83,7 +83,8 @@ def edit_sizes(prog) -> dict:
         base = json.load(fh)
     out = {}
     for m in prog.modules.values():
-        tree = ast.parse(m.source)
+        from .desugar import desugar
+        tree = desugar(ast.parse(m.source))
         for n in tree.body:
             items = []
             if isinstance(n, (ast.FunctionDef, ast.AsyncFunctionDef)):
@@ -377,7 +378,8 @@ def _bind(callee: _Callee, call: ast.Call):
 class Inliner:
     def __init__(self, prog: Program):
         self.prog = prog
-        self.trees = {m.rel: ast.parse(m.source, filename=m.rel) for m in prog.modules.values()}
+        from .desugar import desugar
+        self.trees = {m.rel: desugar(ast.parse(m.source, filename=m.rel)) for m in prog.modules.values()}
         self.log: list = []
         self.counter = 0
         self.base = baseline_functions()
